@@ -127,6 +127,26 @@ pub fn run(ctx: &mut Ctx) {
             attempt(ctx, "tuple_vs_struct:top_level", format!("{} elements as the record itself", n), || serde_arrow::to_marrow(&[mk("a", DataType::Int8, false), mk("b", DataType::Utf8, true)], &[v.clone()]).map(|a| a.len()).map_err(|e| e.to_string()));
         }
     }
+    // 3b. instants far from the epoch written as TEXT into every timestamp unit (the nanosecond range ends in 1677 / 2262, chrono's own
+    // range at the years -262143 / +262142) and into the date columns: an error or an exact value, never an overflow
+    {
+        let texts = ["2300-01-01T00:00:00", "1500-01-01T00:00:00", "2262-04-11T23:47:16.854775807", "2262-04-11T23:47:16.854775808", "2262-04-12T00:00:00", "1677-09-21T00:12:43.145224192",
+            "1677-09-21T00:12:43.145224191", "1677-09-20T00:00:00", "9999-12-31T23:59:59.999999999", "0000-01-01T00:00:00", "-0001-12-31T23:59:59", "+262142-12-31T23:59:59.999999999", "-262143-01-01T00:00:00",
+            "+10000-01-01T00:00:00", "292277026596-12-04T15:30:07", "1970-01-01T00:00:00"];
+        for u in units { for tz in [None, Some("UTC".to_string())] {
+            let f = mk("c", DataType::Timestamp(u, tz.clone()), false);
+            for t in texts {
+                let t = if tz.is_some() { format!("{}Z", t) } else { t.to_string() };
+                attempt(ctx, "far_instants_as_text", format!("{:?} <- {:?}", f.data_type, t), || serde_arrow::to_marrow(std::slice::from_ref(&f), &[Val::Struct(vec![("c".into(), Val::Str(t.clone()))], 0)]).map(|a| a.len()).map_err(|e| e.to_string()));
+            }
+        } }
+        for dt in [DataType::Date32, DataType::Date64] {
+            let f = mk("c", dt, false);
+            for t in ["+262142-12-31", "-262143-01-01", "9999-12-31", "0000-01-01", "-0001-12-31", "+5881580-07-11", "-5877641-06-23", "+10000-01-01"] {
+                attempt(ctx, "far_instants_as_text", format!("{:?} <- {:?}", f.data_type, t), || serde_arrow::to_marrow(std::slice::from_ref(&f), &[Val::Struct(vec![("c".into(), Val::Str(t.to_string()))], 0)]).map(|a| a.len()).map_err(|e| e.to_string()));
+            }
+        }
+    }
     // 4. spans
     for u in units {
         let f = mk("c", DataType::Duration(u), false);
